@@ -554,7 +554,7 @@ fn run_shard(set: bool, maxlen: usize, shard: usize, nshards: usize, keys: [u8; 
     let alpha = alphabet(set);
     let refp = ref_probe();
     let kind = if set { "set" } else { "map" };
-    let exe = std::env::current_exe().expect("current_exe");
+    let exe = Ok::<std::path::PathBuf, std::io::Error>(std::path::PathBuf::from("/proc/self/exe")).expect("current_exe");
     let mut child = match std::process::Command::new(exe)
         .arg("coll-child")
         .arg(kind)
